@@ -89,3 +89,25 @@ prop(
           "distinct by the (path, file type, category) sequence"),
     tiers={"quick": {"shards": 4, "budget": 30}, "thorough": {"shards": NC, "budget": 120}},
 )
+
+prop(
+    "C03",
+    title="Ignore files apply only inside their directory; the nearest match wins",
+    engine="pure",
+    level="exploration",
+    level_text=("seeded generation of directory trees over a name universe with textual-prefix siblings (test/tests, a/ab/abc, "
+                "src/src2), 1-6 ignore files (in-tree and global) over the pattern grammar with negations, probes = every "
+                "file and directory + non-existent paths + paths outside the origin, through the real IgnoreFilter (bulk, "
+                "incremental, from empty()) and IgnoreFilterer::check_event / check_dir. A verdict is judged against two "
+                "independent oracles (a reference evaluator written from the statement and real `git check-ignore`) only "
+                "where both agree; oracle-free metamorphic laws decide scoping (with/without each file), list permutation, "
+                "bulk vs incremental and repeated construction"),
+    level_note=("git 2.39 and the small reference glob matcher are trusted where they agree; probes on which they disagree (git's "
+                "no-re-include-below-an-excluded-directory rule) are counted as oracle-ambiguous, not judged; the directory-vs-"
+                "its-own-ignore-file case is skipped as the statement says"),
+    technique="differential monitor with two independent oracles (reference evaluator + git check-ignore) plus metamorphic relations over real filesystem trees",
+    rule=("N seeded scenarios per shard, each with ~40-80 probes; evaluations = probes judged or compared; a scenario is "
+          "non-trivial if at least one judged probe is decided by a pattern (ignored or re-included) and distinct by its "
+          "judged verdict vector"),
+    tiers={"quick": {"shards": NC, "budget": 40, "min_evaluations": 20000}, "thorough": {"shards": NC, "budget": 400}},
+)
